@@ -35,7 +35,8 @@ def _case(draw):
     return dict(part="lookup", method=method, dtype="float64", prob=prob, y0=draw(PR.state([2])), t0=t0, tf=tf, dt=L * frac,
                 rtol=1e-6, atol=1e-6, dense=draw(st.booleans()), cut=draw(st.sampled_from([None, 0.5, 0.3])),
                 qfrac=draw(st.lists(st.floats(0.0, 1.0), min_size=4, max_size=8)), outside=draw(st.sampled_from([0.1, 1.0, 10.0])), itype=draw(st.integers(0, 3)),
-                against=draw(st.sampled_from([False, False, True])), flip_tf=draw(st.sampled_from([False, False, True])))
+                against=draw(st.sampled_from([False, False, True])), flip_tf=draw(st.sampled_from([False, False, True])),
+                watch_event=draw(st.sampled_from([False, False, True])))
 
 
 def parts(tier):
@@ -62,7 +63,13 @@ def check(case):
     for tg in targets:
         if before is not None:
             pass
-        err = traj.run_integrate(a, tg, step_limit=len(a) + 1500)
+        watch = None
+        if case.get("watch_event"):
+            tc_ = case["t0"] + 0.37 * (case["tf"] - case["t0"])
+
+            def watch(t, y, _tc=tc_, **kw):      # a non-terminal event: the run keeps step interpolants for it even without dense output
+                return t - _tc
+        err = traj.run_integrate(a, tg, step_limit=len(a) + 1500, events=[watch] if watch is not None else None)
         if err is None and before is not None:
             # the first lookup after the continuing call repeats the last lookup before it, bit for bit
             try:
